@@ -16,6 +16,25 @@ from .exceptions import GeomdlException
 from ._utilities import export
 
 
+def _snap_to_knots(obj, param, tol=10e-8):
+    """ Replaces the parameters lying within the knot multiplicity tolerance of an existing knot by that knot.
+
+    :func:`.helpers.find_multiplicity` identifies such a parameter with the existing knot, whereas the knot span is found by
+    exact comparison. Using the stored knot value for both keeps the multiplicity, the span and the updated knot vector
+    consistent (e.g. for the knot 0.30000000000000004 and the parameter 0.3).
+    """
+    knotvectors = [obj.knotvector] if obj.pdimension == 1 else obj.knotvector
+    snapped = list(param)
+    for idx, (prm, kv) in enumerate(zip(param, knotvectors)):
+        if prm is None:
+            continue
+        for knot in kv:
+            if knot != prm and abs(knot - prm) <= tol:
+                snapped[idx] = knot
+                break
+    return snapped
+
+
 @export
 def insert_knot(obj, param, num, **kwargs):
     """ Inserts knots n-times to a spline geometry.
@@ -66,6 +85,9 @@ def insert_knot(obj, param, num, **kwargs):
             if val < 0:
                 raise GeomdlException('Number of insertions must be a positive integer value',
                                       data=dict(idx=idx, num=val))
+
+    # A parameter within the multiplicity tolerance of an existing knot denotes that knot
+    param = _snap_to_knots(obj, param)
 
     # Start curve knot insertion
     if isinstance(obj, abstract.Curve):
@@ -339,6 +361,9 @@ def remove_knot(obj, param, num, **kwargs):
             if val < 0:
                 raise GeomdlException('Number of removals must be a positive integer value',
                                       data=dict(idx=idx, num=val))
+
+    # A parameter within the multiplicity tolerance of an existing knot denotes that knot
+    param = _snap_to_knots(obj, param)
 
     # Start curve knot removal
     if isinstance(obj, abstract.Curve):
